@@ -235,4 +235,15 @@ def examine(case):
         ref = "[%s]" % inner
     if text != ref:
         F("elements", "%s renders %s, the elements in order give %s" % (kind, text, ref), form=kind)
+    # under a parameter collector: every data element is collected exactly once, in order, one placeholder each
+    P = ns.QmarkParameter()
+    ptext = obj.get_sql(parameter=P, **kw)
+    got = list(P.get_parameters())
+    want = [ns.ev(e) for e in elems if not e.startswith("F(")]
+    try:
+        nph = sum(1 for t in sqlspec.lex(ptext) if t.kind == "ph")
+    except sqlspec.LexError:
+        nph = len(want)
+    if [repr(x) for x in got] != [repr(x) for x in want] or nph != len(want):
+        F("elements-collected", "%s under a collector renders %s with values %r, the elements give %r" % (kind, ptext, got, want), form=kind)
     return res
